@@ -127,8 +127,61 @@ def to_real(e):
     return E('i2r', (e,), REAL)
 
 
+def _lin(e, acc, sign):
+    """accumulate the linear form of an int expression: acc = {key: [term, coef]}, returns the constant part"""
+    if e.op == 'const':
+        return sign * int(e.args[0])
+    if e.op == '+' and e.ty == INT:
+        return _lin(e.args[0], acc, sign) + _lin(e.args[1], acc, sign)
+    if e.op == '-' and e.ty == INT:
+        return _lin(e.args[0], acc, sign) + _lin(e.args[1], acc, -sign)
+    if e.op == 'neg' and e.ty == INT:
+        return _lin(e.args[0], acc, -sign)
+    if e.op == '*' and e.ty == INT:
+        a, b = e.args
+        if a.op == 'const':
+            return _lin(b, acc, sign * int(a.args[0]))
+        if b.op == 'const':
+            return _lin(a, acc, sign * int(b.args[0]))
+    k = repr(e.key())
+    if k in acc:
+        acc[k][1] += sign
+    else:
+        acc[k] = [e, sign]
+    return 0
+
+
+def int_normal(e):
+    """canonical form of linear int expressions:  c1*t1 + c2*t2 + ... + c0  (terms ordered), so that equal index
+    expressions are syntactically equal"""
+    acc = {}
+    c0 = _lin(e, acc, 1)
+    res = None
+    for k in sorted(acc):
+        t, c = acc[k]
+        if c == 0:
+            continue
+        term = t if c == 1 else E('*', (t, E.const(c)), INT) if c > 0 else E('*', (t, E.const(c)), INT)
+        if res is None:
+            res = term if c > 0 else (E('neg', (t,), INT) if c == -1 else term)
+        elif c > 0:
+            res = E('+', (res, term), INT)
+        else:
+            res = E('-', (res, t if c == -1 else E('*', (t, E.const(-c)), INT)), INT)
+    if res is None:
+        return E.const(c0)
+    if c0 > 0:
+        res = E('+', (res, E.const(c0)), INT)
+    elif c0 < 0:
+        res = E('-', (res, E.const(-c0)), INT)
+    return res
+
+
 def mk_arith(op, a, b):
     ty = _arith_ty(a, b)
+    if ty == INT and op in ('+', '-', '*') and not (a.op == 'const' and b.op == 'const'):
+        if op != '*' or a.op == 'const' or b.op == 'const':
+            return int_normal(E(op, (a, b), INT))
     if a.op == 'const' and b.op == 'const':
         x, y = a.args[0], b.args[0]
         if ty == REAL:
